@@ -18,6 +18,7 @@
   bookkeeping after reading some runes, the number of newline runes among them; `Gap` — white space
   and whole comments; `runForms` — top-level forms fed one by one to `EVAL`.
 -/
+import LispModel.Proofs.Coherence
 import LispModel.Proofs.LispErrorLaws
 import LispModel.Proofs.PositionLaws
 import LispModel.Proofs.Positions
@@ -374,5 +375,17 @@ open LispModel.LispError in
 theorem get_position_total (c : Carrier) (h : c ≠ .tokenPtr none) :
     LispError.getPosition c = Outcome.ok (LispError.posOf c) :=
   getPosition_total c h
+
+
+/-! ## coherence: positions in the reader / evaluator model versus the `Position` and `LispError` slices -/
+
+/-- the reader model's `closePos` is `Position.Close` -/
+theorem close_models_agree : type_of% @LispModel.Coherence.Posn.close_agrees := @LispModel.Coherence.Posn.close_agrees
+/-- positioning an error in the evaluator model is `lisperror.NewLispError` of the slice -/
+theorem error_position_models_agree : type_of% @LispModel.Coherence.Posn.error_position_agrees :=
+  @LispModel.Coherence.Posn.error_position_agrees
+/-- "first position wins" along any chain of forms, in both models -/
+theorem first_position_wins_in_both_models : type_of% @LispModel.Coherence.Posn.first_position_wins_agrees :=
+  @LispModel.Coherence.Posn.first_position_wins_agrees
 
 end LispModel.Props.C17
